@@ -73,6 +73,112 @@ P["C05"] = {
     ],
 }
 
+O = "io_uring::op::verif_op::"
+OPFN = ["io_uring::op::poll_inner", "io_uring::op::poll", "io_uring::op::poll_next"]
+
+def op_obl(ids):
+    """Shared catalogue of operation-state-machine obligations (kani/op.rs); a property picks the ones it depends on."""
+    cat = {
+        "state_new": K("op.state_new", "op.rs", O + "c01_state_new", "State::new: boxed once; user_data == box address | multishot tag, > 3; resources inside the box; Mutex<Shared> at offset 0", ["io_uring::op::State::new", "io_uring::op::State::user_data"]),
+        "update.single": K("op.update.single", "op.rs", O + "update_single", "Shared::<Singleshot>::update from Running/Done/Dropped x any completion: Done exactly on the final (no F_MORE) completion; stored result = last non-NOTIF completion; Wake(stored waker) exactly when it becomes done; never Drop from Running/Done; Dropped => Drop iff final, with its own destructor; never drops resources", ["io_uring::op::Shared::update", "io_uring::op::Singleshot::update", "io_uring::cq::Completion::complete"]),
+        "update.multi.live": K("op.update.multi.live", "op.rs", O + "update_multi_live", "Shared::<T: IS_MULTISHOT>::update from Running/Done (generic code, instrumented container, 0..3 queued): appends exactly one result last, earlier ones keep position, wakes the stored waker on EVERY completion, Done exactly on the final one", ["io_uring::op::Shared::update"], tier="thorough"),
+        "update.multi.dropped": K("op.update.multi.dropped", "op.rs", O + "update_multi_dropped", "Shared::<T: IS_MULTISHOT>::update from Dropped: Ok while F_MORE, Drop{own destructor} on the final completion; nothing freed by update itself", ["io_uring::op::Shared::update"], tier="thorough"),
+        "drop.not_started": K("op.drop.not_started", "op.rs", O + "drop_not_started", "OpState::drop, NotStarted: no cancel request, ring untouched; state freed exactly once now; resources dropped exactly once", ["io_uring::op::State::drop", "io_uring::op::drop_state"]),
+        "drop.running": K("op.drop.running", "op.rs", O + "drop_running", "OpState::drop, Running: nothing freed, resources not dropped, status Dropped{this op's destructor}; exactly one ASYNC_CANCEL{addr=user_data, CANCEL_USER_DATA, skip-success} iff the queue has room (all counters), other entry untouched", ["io_uring::op::State::drop", "io_uring::sq::Submissions::cancel"]),
+        "drop.running.waker": K("op.drop.running.waker", "op.rs", O + "drop_running_with_waker", "same with a waker stored", ["io_uring::op::State::drop"]),
+        "drop.done": K("op.drop.done", "op.rs", O + "drop_done", "OpState::drop, Done: no cancel; freed once; resources dropped once", ["io_uring::op::State::drop", "io_uring::op::drop_state"]),
+        "drop.done.waker": K("op.drop.done.waker", "op.rs", O + "drop_done_with_waker", "same with a waker stored", ["io_uring::op::State::drop"]),
+        "drop.complete": K("op.drop.complete", "op.rs", O + "drop_complete", "OpState::drop, Complete: no cancel; freed once; resources (already moved out) NOT dropped again", ["io_uring::op::State::drop", "io_uring::op::drop_state"]),
+        "drop_state": K("op.drop_state", "op.rs", O + "drop_state_deferred", "drop_state (the erased destructor process calls with user_data & TAG_MASK): frees the box exactly once and drops the abandoned op's resources exactly once", ["io_uring::op::drop_state"]),
+        "poll.not_started": K("op.poll.not_started", "op.rs", O + "poll_not_started", "first poll, all ring counters: Pending; room => exactly one entry == fill_submission output + own user_data, Running, this poll's waker stored; full => NotStarted, waker registered in blocked_futures, ring untouched", OPFN + ["io_uring::sq::Submissions::wait_for_submission"]),
+        "poll.running.none": K("op.poll.running.none", "op.rs", O + "poll_running_single_none", "re-poll of a running singleshot (no waker stored, e.g. consumed by a non-final wake): Pending, waker stored, no submission, result untouched", OPFN + ["io_uring::op::set_waker"]),
+        "poll.running.same": K("op.poll.running.same", "op.rs", O + "poll_running_single_same", "re-poll with the same waker: Pending, waker still stored", OPFN + ["io_uring::op::set_waker"]),
+        "poll.running.other": K("op.poll.running.other", "op.rs", O + "poll_running_single_other", "re-poll with a different waker: the most recent waker replaces the old one", OPFN + ["io_uring::op::set_waker"]),
+        "poll.done.ok": K("op.poll.done.ok", "op.rs", O + "poll_done_single_sym_ok", "poll of a Done singleshot, every result >= 0 and flags: Ready(Ok(map_ok(own resources, (flags,result)))), Complete, resources moved out exactly once, no submission", OPFN + ["io_uring::op::CompletionResult::check_result"]),
+        "poll.done.restart": K("op.poll.done.restart", "op.rs", O + "poll_done_single_sym_restart", "Done with -EINTR/-ECANCELED: Pending; resources neither moved nor dropped, same address; exactly one new entry byte-identical to the first submission (same fill on same resources/args + user_data); Running, waker stored, stored result cleared; queue full => NotStarted + blocked waker", OPFN),
+        "poll.done.err": K("op.poll.done.err", "op.rs", O + "poll_done_single_sym_err", "Done with any other errno in [-4095,-1]: Ready(Err(that errno)) through the fallback; Complete; resources handed over once; never EINTR/ECANCELED reported", OPFN + ["io_uring::op::CompletionResult::check_result"]),
+        "poll.complete_panics": K("op.poll.complete_panics", "op.rs", O + "poll_complete_panics", "polling a Complete operation panics: a second value can never be produced", OPFN),
+        "poll_next.running": K("op.poll_next.running", "op.rs", O + "poll_next_running", "multishot Running (0..3 queued): head of the queue delivered (Ok/Err), rest keeps order, status unchanged, resources stay; empty => Pending with waker stored", OPFN, tier="thorough"),
+        "poll_next.done": K("op.poll_next.done", "op.rs", O + "poll_next_done", "multishot Done: queued results delivered in order; drained => Ready(None) exactly once, Complete, resources dropped exactly once; -EINTR/-ECANCELED as last result => transparent restart with identical request", OPFN, tier="thorough"),
+        "process.running": K("op.process.running", "op.rs", O + "process_single_running", "Completion::process on a real operation (pointer+tag dispatch): the result reaches exactly that operation (last non-NOTIF), Done iff final, its waker woken exactly once iff final; a second live operation is untouched; nothing freed", ["io_uring::cq::Completion::process", "io_uring::op::Shared::update"]),
+    }
+    return [dict(cat[i]) for i in ids]
+
+OPTRUST = [KERNEL, SC, MUTEX, KANIBUG,
+           "generic operation code is instantiated with an instrumented Op (resource/args types whose Drop bumps ghost counters, an encoder stamping its inputs) and, for IS_MULTISHOT paths, an instrumented fixed-size result container; the concrete per-operation encoders are C13's obligations, the real Multishot container (Vec) is the Verus unit `multishot`",
+           "kernel contract: res in [-4095, i32::MAX]; an -EINTR/-ECANCELED result is the final completion of its submission"]
+
+P["C01"] = {
+    "level_text": "Proof of the ownership state machine on the real code: for every status and every completion (res, flags) CBMC proves that the boxed operation state (which holds every kernel-shared resource, at a fixed address == user_data) is freed only by OpState::drop when not Running, or by the completion handler on the FINAL completion of an abandoned operation; resources are read/dropped only after the Complete store. Transitions are proved one per harness from arbitrary pre-states, so any interleaving of poll/drop/completion steps is a chain of proved steps.",
+    "level_note": "Assumes kernel posts exactly one final (no F_MORE) CQE per accepted SQE and touches the memory only before it; Mutex; SC atomics. Per-operation encoders (pointers placed in each SQE point into Resources) are covered by C13's obligations where built. process on an abandoned op (erased destructor call through a function pointer) is decomposed into update(Dropped)->Drop + drop_state.",
+    "functions": [
+        {"file": "src/io_uring/op.rs", "fn": r"fn new\(resources: R, args: A\) -> State<T, R, A>"},
+        {"file": "src/io_uring/op.rs", "fn": r"unsafe fn drop\(&mut self, sq: &SubmissionQueue\)"},
+        {"file": "src/io_uring/op.rs", "fn": r"unsafe fn drop_state<T, R, A>\("},
+        {"file": "src/io_uring/op.rs", "fn": r"pub\(super\) fn update\(&mut self, completion: &Completion\)"},
+        {"file": "src/io_uring/op.rs", "fn": r"^fn poll_inner<"},
+        {"file": "src/io_uring/cq.rs", "fn": r"unsafe fn process\(&self\)"},
+    ],
+    "trusted_base": OPTRUST,
+    "assumptions": ["'static bound on Buf/BufMut/BufSlice/BufMutSlice and the &'fd AsyncFd borrow are type-level (rustc), not re-proved"],
+    "obligations": op_obl(["state_new", "update.single", "update.multi.dropped", "drop.not_started", "drop.running", "drop.running.waker", "drop.done", "drop.done.waker", "drop.complete", "drop_state", "poll.done.ok", "poll.done.restart", "poll.done.err", "poll_next.done", "process.running"]),
+}
+P["C02"] = {
+    "level_text": "Proof: dispatch (Completion::process on real states: pointer + tag, second operation untouched), storage (Shared::update: last-writer except NOTIF; multishot append-in-order) and delivery (poll_inner: head of queue, end-of-stream exactly once, panic on re-poll after completion) are each proved by CBMC on the real functions for all result/flag values and all ring counters; the real Multishot container is proved FIFO for unbounded length by Verus on the extracted functions.",
+    "level_note": "Assumes the kernel model; instrumented Op/containers for the generic code; two live operations in the dispatch obligation (frame for any number follows from the pointer dispatch touching only user_data's target).",
+    "functions": [
+        {"file": "src/io_uring/cq.rs", "fn": r"unsafe fn process\(&self\)"},
+        {"file": "src/io_uring/op.rs", "fn": r"pub\(super\) fn update\(&mut self, completion: &Completion\)"},
+        {"file": "src/io_uring/op.rs", "fn": r"^fn poll_inner<"},
+    ],
+    "trusted_base": OPTRUST,
+    "assumptions": [],
+    "obligations": op_obl(["process.running", "update.single", "update.multi.live", "poll.done.ok", "poll.done.err", "poll.running.none", "poll.complete_panics", "poll_next.running", "poll_next.done"]) + [
+        K("c05.process.reserved", "cq.rs", C + "c05_process_reserved", "bookkeeping/padding completions never reach an operation", ["io_uring::cq::Completion::process"]),
+        K("c05.process.dispatches_rest", "cq.rs", C + "c05_process_dispatches_rest", "every other completion is dispatched exactly once", ["io_uring::cq::Completion::process"]),
+    ],
+}
+P["C03"] = {
+    "level_text": "Proof of the safety form of 'no lost wake-up': every Pending return of poll_inner leaves the most recent waker stored (or registered as blocked when the queue is full); Shared::update returns that waker exactly when the operation becomes actionable and Completion::process wakes it exactly once; wake_blocked_futures wakes min(free slots, blocked) futures and loses none; a successful kernel entry runs it. All on the real functions, all counters.",
+    "level_note": "NOT decided: liveness under real schedulers and the multi-thread queue-full window (waker pushed after another thread's enter already ran wake_blocked_futures, then an ETIME enter that skips it) - see DESIGN.md section 6. Blocked list length <= 2 (bounded) in c03.blocked.*.",
+    "functions": [
+        {"file": "src/io_uring/op.rs", "fn": r"^fn poll_inner<"},
+        {"file": "src/io_uring/op.rs", "fn": r"^fn set_waker\("},
+        {"file": "src/io_uring/mod.rs", "fn": r"pub\(crate\) fn wake_blocked_futures\("},
+        {"file": "src/io_uring/mod.rs", "fn": r"pub\(crate\) fn enter\("},
+    ],
+    "trusted_base": OPTRUST,
+    "assumptions": ["liveness half of the statement (executor makes progress) is outside contract-based verification: only 'waker invoked by the end of the processing step that made the op ready' is proved"],
+    "obligations": op_obl(["poll.not_started", "poll.running.none", "poll.running.same", "poll.running.other", "update.single", "update.multi.live", "process.running", "poll.done.restart", "poll_next.running"]) + [
+        K("c03.blocked.wake.1", "uring_mod.rs", U + "c03_blocked_wake_1", "wake_blocked_futures, 1 blocked future, all counters/sizes: woken iff a slot is free, else still registered", ["io_uring::Shared::wake_blocked_futures"], bounded="blocked list length 1"),
+        K("c03.blocked.wake.2", "uring_mod.rs", U + "c03_blocked_wake_2", "wake_blocked_futures, 2 blocked futures: wakes min(free, 2), each future woken exactly once or still registered", ["io_uring::Shared::wake_blocked_futures"], bounded="blocked list length 2"),
+        K("c03.enter.wakes", "uring_mod.rs", U + "c03_enter_wakes", "Shared::enter: after a successful io_uring_enter that consumed k entries, a blocked future is woken iff a slot is free", ["io_uring::Shared::enter", "io_uring::Shared::wake_blocked_futures"]),
+    ],
+}
+P["C06"] = {
+    "level_text": "Proof: OpState::drop from every status (cancel request exactly for Running, targeting exactly this user_data, only if the queue has room; immediate free otherwise), the cancel encoder, the deferred destructor and Shared::update's Drop decision are proved on the real functions for all counters/results; state frees and resource drops are counted by ghost counters (instrumented Args/Resources) so 'exactly once' is an equality, and CBMC's own double-free/use-after-free checks are on.",
+    "level_note": "The last step of the abandoned path (process calling the erased destructor through a function pointer) is proved as update(Dropped)=>Drop{own destructor} + drop_state(ptr) separately; see DESIGN.md. Kernel assumed to post the final CQE of every cancelled request.",
+    "functions": [
+        {"file": "src/io_uring/op.rs", "fn": r"unsafe fn drop\(&mut self, sq: &SubmissionQueue\)"},
+        {"file": "src/io_uring/op.rs", "fn": r"unsafe fn drop_state<T, R, A>\("},
+        {"file": "src/io_uring/sq.rs", "fn": r"pub\(super\) fn cancel\(&self, user_data: u64\)"},
+    ],
+    "trusted_base": OPTRUST,
+    "assumptions": [],
+    "obligations": [K("c06.cancel.encoding", "sq.rs", S + "c06_cancel_encoding", "Submissions::cancel(ud): ASYNC_CANCEL, addr == ud, CANCEL_USER_DATA, CQE_SKIP_SUCCESS, every other byte zero; QueueFull => nothing written", ["io_uring::sq::Submissions::cancel"])]
+        + op_obl(["drop.not_started", "drop.running", "drop.running.waker", "drop.done", "drop.done.waker", "drop.complete", "drop_state", "update.single", "update.multi.dropped", "poll_next.done"]) + [
+        K("c05.process.reserved", "cq.rs", C + "c05_process_reserved", "cancel acknowledgements (reserved user_data 2, any result) are ignored", ["io_uring::cq::Completion::process"]),
+    ],
+}
+P["C09"] = {
+    "level_text": "Proof: for every stored result and flag value, poll_inner on a finished operation either returns the value/error (never EINTR/ECANCELED) or, for -EINTR/-ECANCELED, re-issues a request that is byte-identical to the first submission, built by the same encoder from the same resources at the same address and the same arguments, keeps nothing of the earlier attempt and reports Pending. The step is proved from an arbitrary pre-state, so any finite sequence of interruptions is a chain of proved steps.",
+    "level_note": "Instrumented Op for the generic code; kernel contract that an interruption is the final completion of its submission.",
+    "functions": [{"file": "src/io_uring/op.rs", "fn": r"^fn poll_inner<"}],
+    "trusted_base": OPTRUST,
+    "assumptions": [],
+    "obligations": op_obl(["poll.done.restart", "poll.done.ok", "poll.done.err", "poll_next.done", "poll.not_started"]),
+}
+
 def main():
     os.makedirs(os.path.join(V, "obligations"), exist_ok=True)
     for pid, p in P.items():
